@@ -140,9 +140,30 @@ func runC08(r *Run) {
 			"if another part of the DID (or the whole DID) is compared, forged DIDs that merely end with the real suffix resolve", det, det)
 	}
 	if f := r.fn(P, pkgParser, "Parser.ParseDID"); f != nil {
-		r.requireEachSuccess(P+".suffix.longform.parse", "long-form parsing must go through parseInitialState on the last segment", f, core.Ctx{},
-			[]string{"cmp(strings.Index(_, _) == -1)", "cmp(<result> == $2)"},
-			[]string{"ok(parseInitialState(_))", "ok(canonicalizer.MarshalCanonical(parseInitialState(_)))"})
+		// every success return either claims no initial state (nil bytes, the DID returned as given) or went
+		// through parseInitialState and re-canonicalisation — however the short/long decision is spelled
+		ff := r.E.Facts(f, core.Ctx{})
+		good, n := true, 0
+		var det []string
+		for _, ri := range ff.Returns() {
+			if ri.Class != core.RetSuccess {
+				continue
+			}
+			n++
+			if c, isC := core.RetOp(ri.Ret, 1).(*ssa.Const); isC && c.Value == nil {
+				if ff.TB.Of(core.RetOp(ri.Ret, 0)).String() != "$"+f.Params[2].Name() {
+					good = false
+					det = append(det, r.P.Pos(ri.Ret.Pos())+": short-form return does not return the DID as given")
+				}
+				continue
+			}
+			if !core.HasFact(ri.Facts, "ok(parseInitialState(_))") || !core.HasFact(ri.Facts, "ok(canonicalizer.MarshalCanonical(parseInitialState(_)))") {
+				good = false
+				det = append(det, r.P.Pos(ri.Ret.Pos())+": initial state returned without parseInitialState + MarshalCanonical")
+			}
+		}
+		r.R.Check(good && n >= 2, P+".suffix.longform.parse", "E2: a success return of ParseDID has nil initial state and the DID as given, or is under ok(parseInitialState(segment)) ∧ ok(MarshalCanonical(…))", core.FuncName(f), r.where(f),
+			"long-form parsing must go through parseInitialState on the last segment", fmt.Sprintf("%d success returns", n), strings.Join(det, "; "))
 	}
 }
 
